@@ -13,6 +13,7 @@ import Circomspect.Model.Ssa
 import Circomspect.Model.Propagate
 import Circomspect.Model.SignalAssign
 import Circomspect.Model.Includes
+import Circomspect.Model.Taint
 import Driver.Sexp
 import Driver.DesugarCmd
 
@@ -612,6 +613,35 @@ def includesCmd (args : List String) : String :=
     s!"wf={if fs.wf inputs then 1 else 0} stack={st.stack.length} stable={if stable then 1 else 0} reads={showCsv st.reads} users={showCsv users} errors={",".intercalate (st.errors.map (fun e => s!"{e.1}.{e.2}"))}"
   | _ => "bad-op"
 
+/-- `taint <fuel> <params|-> <exported|-> <underscore|-> <fact>*` with facts `A:w:rs:phi`, `D:names:rs`,
+    `B:rs:const:region`, `O:rs`, `C:us:reads`, `X:rs` (lists `.`-separated, `-` empty) -/
+def taintCmd (args : List String) : String :=
+  match args with
+  | fuel :: ps :: ex :: us :: toks =>
+    let lst (t : String) : List Nat := if t == "-" || t == "" then [] else (t.splitOn ".").filterMap String.toNat?
+    let facts : List Taint.Fact := toks.filterMap (fun t => match t.splitOn ":" with
+      | ["A", w, rs, phi] => some (.assign (w.toNat?.getD 0) (lst rs) (phi == "1"))
+      | ["D", ns, rs] => some (.decl (lst ns) (lst rs))
+      | ["B", rs, c, region] => some (.branch (lst rs) (c == "1") (lst region))
+      | ["O", rs] => some (.observe (lst rs))
+      | ["C", us, reads] => some (.constraint (lst us) (lst reads))
+      | ["X", rs] => some (.other (lst rs))
+      | _ => none)
+    let d : Taint.Def := { facts := facts, params := lst ps, exported := lst ex, underscore := lst us, fuel := fuel.toNat?.getD 0 }
+    let showPairs (l : List (Nat × Nat)) : String :=
+      let u := l.eraseDups
+      if u.isEmpty then "-" else ",".intercalate (u.map (fun e => s!"{e.1}>{e.2}"))
+    let sinks := match d.sinks with
+      | some l => showCsv l.eraseDups
+      | none => "none"
+    let claims := d.definitions.eraseDups.map (fun x => match d.classify x with
+      | some (some .unread) => s!"{x}:U"
+      | some (some .noSideEffect) => s!"{x}:N"
+      | some none => s!"{x}:-"
+      | none => s!"{x}:fuel")
+    s!"wf={if Taint.consWfB facts then 1 else 0} edges={showPairs (Taint.edges facts)} cons={showPairs (Taint.consEdges facts)} sinks={sinks} claims={if claims.isEmpty then "-" else ",".intercalate claims}"
+  | _ => "bad-op"
+
 def showIStmt : CfgLift.IStmt → String
   | .simple l => s!"s{l.1}-{l.2}"
   | .branch l t f => s!"i{l.1}-{l.2}:{t}:{match f with | some f => toString f | none => "-"}"
@@ -657,6 +687,7 @@ def handle (line : String) : String :=
   | "runner" :: args => runnerCmd args
   | "sigassign" :: args => sigassignCmd args
   | "includes" :: args => includesCmd args
+  | "taint" :: args => taintCmd args
   | "dom" :: args => domCmd false args
   | "strip" :: args => stripCmd false args
   | "stripspec" :: args => stripCmd true args
